@@ -170,10 +170,14 @@ func modeFallback(n int) {
 	planOf = plan
 	onlyEvents = map[string]bool{"srv.recv": true, "srv.send": true, "srv.abort": true}
 	runWorkers(u, 8, n/8+1, 300*time.Millisecond, 300*time.Millisecond, false)
-	planOf = nil
+	// second phase: deadlines that fall around the arrival of the UDP reply (caller cancellation racing the TC check)
+	shortDeadlines = true
+	runWorkers(u, 8, n/4+1, 300*time.Microsecond, 9*time.Millisecond, false)
+	shortDeadlines = false
 	time.Sleep(350 * time.Millisecond)
 	u.Close()
-	onlyEvents = nil
+	planOf = nil
+	// the event filter stays on: hook events of worker goroutines that outlive the run must not reach this trace
 }
 
 // C20: DoH exchanges whose callers give up while the HTTP round trip is still being prepared / in flight,
@@ -221,7 +225,6 @@ func modeDohCancel(n int) {
 	wg.Wait()
 	time.Sleep(300 * time.Millisecond)
 	u.Close()
-	onlyEvents = nil
 }
 
 func main() {
